@@ -304,6 +304,12 @@ def rel_matches(reported, xv, mv, mag=None):
 def check_rel(reported, xv, mv, clause, mag=None):
     """reported relative error is a finite non-negative number equal to the true one"""
     r = as_float(reported, clause)
+    if mag is not None and np.isfinite(mag):
+        x2 = float(np.asarray(xv, dtype=float).ravel() @ np.asarray(xv, dtype=float).ravel())
+        if mag > 1e100 * x2:
+            # components 1e50 times larger than the data (seen: l2_reg + normalize_factors on rank-deficient data,
+            # weights underflow): squares of such numbers overflow in the library and in the harness alike
+            discard("diverged iterate (|components| > 1e50 |X|)")
     check(np.isfinite(r), clause + "/finite", lambda: f"reported error is {r}")
     check(r >= 0, clause + "/sign", lambda: f"reported error is negative: {r}")
     ok, msg, true = rel_matches(r, xv, mv, mag)
@@ -477,6 +483,10 @@ class Adapter:
     def cond(self, snap, case):
         return 1.0
 
+    def errors_optional(self, case):
+        """True when the entry point keeps no error history for this option set"""
+        return False
+
     def init_snapshot(self, data, case):
         """snapshot of the initial decomposition when the harness knows it (user init), for algorithms
         without a callback; None otherwise"""
@@ -532,8 +542,21 @@ class Parafac(CPAdapter):
             kw["cvg_criterion"] = case["cvg"]
         if case.get("fixed_modes"):
             kw["fixed_modes"] = [int(m) for m in case["fixed_modes"]]      # fresh list per call
+        if case.get("l2_reg"):
+            kw["l2_reg"] = float(case["l2_reg"])
+        if case.get("orthogonalise"):
+            kw["orthogonalise"] = case["orthogonalise"]                    # True or an iteration count
         if callback is not None:
             kw["callback"] = callback
+        if case.get("api") == "class":
+            # estimator interface: CP(...).fit_transform(X) returns the decomposition, the history is .errors_
+            from tensorly.decomposition import CP
+            kw.pop("return_errors")
+            est = CP(case["rank"], **kw)
+            with global_seed(case["init"]["seed"]):
+                dec = est.fit_transform(data.copy())
+            check(hasattr(est, "errors_"), "structure", "CP estimator has no errors_ after fit_transform")
+            return dec, (est.errors_ if return_errors else None)
         with global_seed(case["init"]["seed"]):
             out = parafac(data.copy(), case["rank"], **kw)
         if return_errors:
@@ -548,6 +571,9 @@ class Parafac(CPAdapter):
 
 class RandomisedParafac(CPAdapter):
     has_callback = True
+
+    def errors_optional(self, case):
+        return not case["tol"] and not case.get("max_stagnation", 20)
 
     def run(self, data, case, n_iter, callback=None, return_errors=True):
         from tensorly.decomposition import randomised_parafac
@@ -570,7 +596,9 @@ class NNParafacMU(CPAdapter):
             out = non_negative_parafac(data.copy(), case["rank"], n_iter_max=int(n_iter),
                                        init=cp_init(case["init"], data.shape, case["rank"], nonneg=True),
                                        tol=case["tol"], random_state=case["init"]["seed"],
-                                       normalize_factors=bool(case.get("normalize", False)), return_errors=True)
+                                       normalize_factors=bool(case.get("normalize", False)), return_errors=True,
+                                       cvg_criterion=case.get("cvg", "abs_rec_error"),
+                                       fixed_modes=[int(m) for m in case.get("fixed_modes") or []] or None)
         return out[0], out[1]
 
 
@@ -586,6 +614,7 @@ class NNParafacHALS(CPAdapter):
                                             nn_modes=_nn_modes(case.get("nn_modes", "all")),
                                             normalize_factors=bool(case.get("normalize", False)),
                                             fixed_modes=[int(m) for m in case.get("fixed_modes") or []] or None,
+                                            cvg_criterion=case.get("cvg", "abs_rec_error"),
                                             exact=False, return_errors=True)
         return out[0], out[1]
 
@@ -624,7 +653,10 @@ class ConstrainedParafac(CPAdapter):
             out = constrained_parafac(data.copy(), case["rank"], n_iter_max=int(n_iter),
                                       n_iter_max_inner=int(case.get("n_inner", 5)),
                                       init=cp_init(case["init"], data.shape, case["rank"]),
-                                      tol_outer=case["tol"], random_state=case["init"]["seed"],
+                                      tol_outer=case["tol"], tol_inner=float(case.get("tol_inner", 1e-6)),
+                                      random_state=case["init"]["seed"],
+                                      cvg_criterion=case.get("cvg", "abs_rec_error"),
+                                      fixed_modes=[int(m) for m in case.get("fixed_modes") or []] or None,
                                       return_errors=True, **CONSTRAINTS[case["constraint"]])
         return out[0], out[1]
 
@@ -691,6 +723,7 @@ class NNTuckerHALS(TuckerHOOI):
                                            init=tucker_init(case["init"], data.shape, rk, nonneg=True),
                                            tol=case["tol"], random_state=case["init"]["seed"],
                                            sparsity_coefficients=None if sc is None else list(sc),
+                                           core_sparsity_coefficient=case.get("core_sparsity"),
                                            normalize_factors=bool(case.get("normalize", False)),
                                            exact=False, algorithm=case["algorithm"], return_errors=True)
         return out[0], out[1]
